@@ -342,6 +342,7 @@ func C10(p *core.Prog, rep *core.Report) {
 	vf6Snapshot(p, rep)
 	iterReadOnlyParity(p, rep)
 	hp1Heap(p, rep)
+	hp2Conservation(p, rep)
 	// constructors run under the shard lock (LK7 instances of the iterator call)
 	full := core.NewReport("C09")
 	runLockRules(p, full, false)
@@ -362,6 +363,7 @@ func C14(p *core.Prog, rep *core.Report) {
 	tb2cItems(p, rep)
 	cfgTaint(p, rep)
 	hp1Heap(p, rep)
+	hp2Conservation(p, rep)
 	v := newVF(p, rep)
 	v.vf3Replay()
 	rep.Notes = append(rep.Notes, "considered and rejected: 'both arms of every branch on DataFileSize/SyncStrategy produce the same WRITE/INDEX-UPDATE trace' - the batch overflow branch legitimately flushes early in one arm")
